@@ -87,7 +87,7 @@ def _verify_worker(args):
     # unchanged; then generation is a deterministic function of identical inputs.
     if "reg" not in _worker_state:
         _init_worker()
-    cpath = os.path.join(CACHE_DIR, hashlib.sha256((thash + fqn + tier).encode()).hexdigest()[:32] + ".json")
+    cpath = _cache_path(thash, fqn, tier)
     if os.path.exists(cpath) and not os.environ.get("PYVC_NOCACHE"):
         try:
             with open(cpath) as fh:
@@ -118,13 +118,80 @@ def _verify_worker(args):
     return rec
 
 
+def _cache_path(thash, fqn, tier):
+    return os.path.join(CACHE_DIR, hashlib.sha256((thash + fqn + tier).encode()).hexdigest()[:32] + ".json")
+
+
+def _resolve_worker(args):
+    """second look at the obligations a function left `unknown`: regenerate, re-solve only those, alone on the
+    machine and with a six times larger budget (a verdict must not depend on the load of the first pass)"""
+    fqn, names, thash, tier = args
+    if "reg" not in _worker_state:
+        _init_worker()
+    from .driver import verify_one
+    from . import solve
+    out = {}
+    try:
+        rec = verify_one(fqn, _worker_state["repo"], _worker_state["reg"], _worker_state["facts"], solve_it=False, tier=tier)
+        eng = rec["engine"]
+        ax = eng.class_axioms()
+        for ob in eng.obligations:
+            if ob.name in names:
+                v, m, dt, be = solve.check(ax, ob.pc, ob.goal, timeout_ms=6 * solve.Z3_TIMEOUT_MS)
+                out[ob.name] = {"verdict": v, "time": round(dt, 3), "backend": be + " (second pass)"}
+                if v == "refuted":
+                    out[ob.name]["model"] = solve.model_summary(m, getattr(ob, "locals_view", {}))
+                    out[ob.name]["goal"] = str(ob.goal)[:2000]
+    except Exception:
+        traceback.print_exc()
+    return fqn, out
+
+
+def second_pass(recs, thash, tier):
+    todo = []
+    for r in recs:
+        if r.get("status") != "ok" or r.get("second_pass"):
+            continue
+        names = [o["name"] for o in r["obligations"] if o["verdict"] == "unknown" and "hard limit" not in o.get("backend", "")]
+        if names and len(names) <= 40:
+            todo.append((r["function"], set(names), thash, tier))
+    if not todo or os.environ.get("PYVC_NO_SECOND_PASS"):
+        return recs
+    ctx = mp.get_context("fork")
+    with ctx.Pool(min(4, len(todo)), initializer=_init_worker) as pool:
+        results = dict(pool.map(_resolve_worker, todo, chunksize=1))
+    for r in recs:
+        upd = results.get(r["function"])
+        if upd is None:
+            continue
+        for o in r["obligations"]:
+            u = upd.get(o["name"])
+            if u is not None:
+                o["time"] = round(o.get("time", 0) + u["time"], 3)
+                if u["verdict"] != "unknown":
+                    o.update(u)
+                    o.pop("reason", None)
+        r["second_pass"] = True
+        try:
+            cpath = _cache_path(thash, r["function"], tier)
+            tmp = cpath + ".%d.tmp" % os.getpid()
+            with open(tmp, "w") as fh:
+                json.dump(r, fh)
+            os.replace(tmp, cpath)
+        except OSError:
+            pass
+    return recs
+
+
 def verify_functions(fqns, tier="quick", jobs=None):
     thash = tree_hash()
     jobs = jobs or min(16, max(1, len(fqns)))
     args = [(f, thash, tier) for f in fqns]
     if jobs == 1 or len(fqns) == 1:
         _init_worker()
-        return [_verify_worker(a) for a in args]
-    ctx = mp.get_context("fork")
-    with ctx.Pool(jobs, initializer=_init_worker) as pool:
-        return pool.map(_verify_worker, args, chunksize=1)
+        recs = [_verify_worker(a) for a in args]
+    else:
+        ctx = mp.get_context("fork")
+        with ctx.Pool(jobs, initializer=_init_worker) as pool:
+            recs = pool.map(_verify_worker, args, chunksize=1)
+    return second_pass(recs, thash, tier)
